@@ -280,9 +280,9 @@ SlicesAreDisplay ==
     \A b \in BOOLEAN : \A i \in 0..1 : \A j \in 0..1 :
         Slices(b)[2 * j + i + 1] = <<IF b THEN 1 - j ELSE j, i>>
 ASSUME SlicesAreDisplay
-\* one merge in stored orientation = the display sentence, for the tiles of any state (action form of DoneRight)
+\* one merge in stored orientation = the display sentence, for every merge that can run next (action form of DoneRight)
 MergeCommutes ==
-    \A p \in UpTo(Depth - 1) :
+    \A p \in ReadySet :
         LET kids == KidTiles(p)
             viaFile == MergeTile(c.mode, c.bottomup, c.ranged, kids, Absent)
             viaDisplay == MergeDisplay(c, [i \in 1..4 |-> Stored(kids[i])])
